@@ -67,15 +67,15 @@ def handleMdParse (args : List String) : String :=
     | _, _, _ => "bad-op"
   | _ => "bad-op"
 
-/-- `evok | ilt | cps | events` → `ok e s`: the assumption monitors `EventsOK` (e) and `solidOK` (s)
-of the Markdown theorems, evaluated by the model's own definitions on the real event list -/
+/-- `evok | ilt | cps | events` → `ok e s b`: the assumption monitors `EventsOK` (e), `solidOK` (s)
+and `StartsOK` (b) of the Markdown theorems, evaluated by the model's own definitions on the real event list -/
 def handleEvOk (args : List String) : String :=
   match splitAt "|" args with
   | [[], il, cs, evs] =>
     match parseBool il, charsOf cs, evs.mapM parseEvent with
     | some ilt, some src, some events =>
       let b := fun (x : Bool) => if x then "1" else "0"
-      s!"ok {b (eventsOK (utf8Bytes src) ilt 0 0 [] events)} {b (solidOK ilt [] events)}"
+      s!"ok {b (eventsOK (utf8Bytes src) ilt 0 0 [] events)} {b (solidOK ilt [] events)} {b (startsOK (utf8Bytes src) 0 events)}"
     | _, _, _ => "bad-op"
   | _ => "bad-op"
 
